@@ -41,7 +41,7 @@ PROBES = [
     "probe.runtime_error_line", "probe.runtime_error_after_effects", "probe.continued_line",
     "probe.closure_call", "probe.recursion", "probe.echo_seen", "probe.use_after_reject", "probe.two_rejects_in_a_row",
     "probe.blank_entry", "probe.continued_line_closed_by_blank", "probe.comment_only_line", "probe.runtime_error_inside_call",
-    "probe.function_literal_in_container", "probe.block_local_let", "probe.comment_before_continuation", "probe.string_spans_continuation",
+    "probe.function_literal_in_container", "probe.block_local_let", "probe.late_builtins", "probe.comment_before_continuation", "probe.string_spans_continuation",
 ]
 THOROUGH_ONLY_PROBES = ["probe.long_session"]
 COMPONENTS = {
@@ -100,8 +100,23 @@ def _ok_stmt(rng, env, stats):
     k = rng.weighted([
         (22, "let"), (10 if ints else 0, "assign"), (12, "fn"), (20, "print"), (6, "str"), (6, "arr"),
         (6, "if"), (5, "letif"), (4, "rec"), (5 if arrs else 0, "arrop"), (4, "loop"), (3, "map"),
-        (4, "fnarr"), (3, "fnmap"), (3, "fnif"), (4 if funs0 else 0, "fnassign"), (6, "blocklet"),
+        (4, "fnarr"), (3, "fnmap"), (3, "fnif"), (4 if funs0 else 0, "fnassign"), (6, "blocklet"), (9, "builtin"),
     ])
+    if k == "builtin":
+        # builtins from the whole table (the REPL registers them itself, separately from scripts)
+        e1 = _iexpr(rng, env, 1)
+        t = rng.choice([
+            "puts(sort([3, %s, 1]));" % e1, 'puts(join(chars("abc"), "-"));', "puts(is_error(%s));" % e1, 'puts(toupper("abc") + str(%s));' % e1,
+            'puts(int("42") + %s);' % e1, "puts(strerror(2));", "puts(rest([1, %s, 3]));" % e1, 'puts(tolower("ABC"));', "puts(char(65));",
+            'puts(len(encode_utf8("xyz")));', 'puts(decode_utf8(encode_utf8("ok")));', "puts(round(2.567, 1));", 'puts(contains(map {"k": 1}, "k"));',
+            'puts(get([5, 6], 1));', "puts(pop([1, 2, %s]));" % e1, 'puts(format("{}-{}", %s, 7));' % e1, "puts(float(3) + 0.5);", "puts(byte(66));",
+            "puts(is_error(open(\"/nonexistent/zz\")));",
+        ])
+        if rng.chance(35):
+            f = rng.choice(FUNS)
+            e2 = _iexpr(rng, dict((n, kk) for n, kk in env.items() if n != f), 1)   # (no accidental self-recursion)
+            return "let %s = fn(n) { len(sort([n, 1, %s])) + len(chars(str(n))) };" % (f, e2), [(f, "fn")]
+        return t, []
     if k == "blocklet":
         # a `let` inside a block: local to the block, even when it reuses the name of a live top-level binding
         # (p2sh keeps such a binding visible to later blocks of the same depth, in scripts and at the REPL alike;
@@ -450,6 +465,8 @@ def check(model, results):
             inc("probe.function_literal_in_container")
         if "{ let " in ln["text"] and kind == "ok":
             inc("probe.block_local_let")
+        if kind in ("ok", "probe") and re.search(r"\b(sort|chars|join|is_error|strerror|rest|pop|format|decode_utf8)\(", ln["text"]):
+            inc("probe.late_builtins")
         if "// note\n" in ln["text"]:
             inc("probe.comment_before_continuation")
         if '"ab\ncd"' in ln["text"]:
@@ -483,7 +500,8 @@ def check(model, results):
                 viols.append(_viol("session:short", "no REPL output recorded for line %d" % k))
             break
         if ref.status != ("exit", 0) or script.panic_or_crash(ref.stdout):
-            viols.append(_viol("reference:crash", "reference process for line %d: status %r, output tail %r" % (k, ref.status, ref.stdout[-200:])))
+            # (a crash of the non-interactive reference is not a statement about the REPL: the scenario is skipped)
+            viols.append(_viol("generator:reference_crashed", "reference process for line %d: status %r, output tail %r" % (k, ref.status, ref.stdout[-200:])))
             break
         rout = ref.stdout.decode("utf-8", "replace")
         mark = MARK + "\n"
